@@ -30,8 +30,12 @@ enum Entry {
 #[derive(Debug, Clone, Copy, PartialEq, Eq)]
 struct MockErr(u32);
 impl embedded_io::Error for MockErr {
+    /// Every error kind occurs: an interface error is returned unchanged whatever its kind
+    /// (no retry on `Interrupted`, no special case for `WriteZero` / `TimedOut` …).
     fn kind(&self) -> embedded_io::ErrorKind {
-        embedded_io::ErrorKind::Other
+        use embedded_io::ErrorKind::*;
+        [Other, Interrupted, TimedOut, WriteZero, InvalidInput, NotFound, PermissionDenied, ConnectionReset, OutOfMemory,
+         InvalidData, Unsupported, BrokenPipe][self.0 as usize % 12]
     }
 }
 
